@@ -132,6 +132,8 @@ theorem buildLeaf_eq (lit : PyVal → α) (cls : CClass) (c : Ctor) (hs : Shape 
     buildLeaf lit cls c pos kw =
       (if pos.length > c.params.length && c.varPos.isNone then throw .typeError
        else if !(kw.filter (fun kv => !c.params.contains kv.1)).isEmpty && c.varKw.isNone then throw .typeError
+       else if (kw.filter (fun kv => !c.params.contains kv.1)).any (fun kv => reservedKwNames.contains kv.1) then
+        throw .typeError
        else do
         let bound ← bindCtorParams lit c.defaults c.params (pos.take c.params.length) kw
         pure { cls := cls, fn := c.target,
@@ -144,16 +146,18 @@ theorem buildLeaf_eq (lit : PyVal → α) (cls : CClass) (c : Ctor) (hs : Shape 
   · rfl
   · split
     · rfl
-    · cases hb : bindCtorParams lit c.defaults c.params (List.take c.params.length pos) kw with
-      | error e => rfl
-      | ok bound =>
-        have hk := bind_keys lit c.defaults _ _ _ _ hb
-        have hnd : (bound.map (·.1)).Nodup := by rw [hk]; exact h2
-        have h3' : c.fwdKw = (bound.map (·.1)).map (fun p => (p, p)) := by rw [hk, h3]
-        simp only [h1, List.mapM_nil, pure, Except.pure, h4, h5, List.nil_append]
-        rw [h3', fwd_all bound _ _ bound (lookupStr_of_nodup hnd)]
-        · intro kv v hv
-          simp only [hv]
+    · split
+      · rfl
+      · cases hb : bindCtorParams lit c.defaults c.params (List.take c.params.length pos) kw with
+        | error e => rfl
+        | ok bound =>
+          have hk := bind_keys lit c.defaults _ _ _ _ hb
+          have hnd : (bound.map (·.1)).Nodup := by rw [hk]; exact h2
+          have h3' : c.fwdKw = (bound.map (·.1)).map (fun p => (p, p)) := by rw [hk, h3]
+          simp only [h1, List.mapM_nil, pure, Except.pure, h4, h5, List.nil_append]
+          rw [h3', fwd_all bound _ _ bound (lookupStr_of_nodup hnd)]
+          · intro kv v hv
+            simp only [hv]
 
 /-- what a successful constructor call stores, by the kind of the constructor -/
 theorem buildLeaf_cases (lit : PyVal → α) (cls : CClass) (c : Ctor) (hs : Shape c) (pos : List α)
@@ -164,6 +168,7 @@ theorem buildLeaf_cases (lit : PyVal → α) (cls : CClass) (c : Ctor) (hs : Sha
     (c.varPos.isSome = true ∧ c.varKw = none ∧ c.params = [] ∧ kw = [] ∧
         l = { cls := cls, fn := c.target, args := pos, kwargs := [] }) ∨
     (c.varPos = none ∧ c.varKw.isSome = true ∧ c.params = [] ∧ pos = [] ∧
+        kw.any (fun kv => reservedKwNames.contains kv.1) = false ∧
         l = { cls := cls, fn := c.target, args := [], kwargs := kw }) := by
   rw [buildLeaf_eq lit cls c hs] at h
   obtain ⟨_, _, _, _, _, h6, h7, _, _⟩ := hs
@@ -173,6 +178,9 @@ theorem buildLeaf_cases (lit : PyVal → α) (cls : CClass) (c : Ctor) (hs : Sha
     split at h
     · cases h
     · rename_i hextra
+      split at h
+      · cases h
+      rename_i hres
       cases hvp : c.varPos with
       | none =>
         cases hvk : c.varKw with
@@ -194,7 +202,8 @@ theorem buildLeaf_cases (lit : PyVal → α) (cls : CClass) (c : Ctor) (hs : Sha
           have hft : ∀ (l : List (String × α)), List.filter (fun _ => true) l = l := by
             intro l; induction l <;> simp_all
           rw [hft] at h
-          exact ⟨rfl, by simp, hp, hpos, h.symm⟩
+          simp only [hp, List.contains_nil, Bool.not_false, hft, Bool.not_eq_true] at hres
+          exact ⟨rfl, by simp, hp, hpos, hres, h.symm⟩
       | some k =>
         right; left
         have hvk : c.varKw = none := by
@@ -218,10 +227,13 @@ theorem rebuild_novar (lit : PyVal → α) (cls : CClass) (c : Ctor) (hs : Shape
   have hnd : (bound.map (·.1)).Nodup := by rw [hk]; exact hs.2.1
   have hb := bind_from_kw lit c.defaults bound bound (lookupStr_of_nodup hnd)
   rw [hk] at hb
+  have hex : bound.filter (fun kv => !c.params.contains kv.1) = [] := by
+    rw [List.filter_eq_nil_iff]
+    intro kv hkv
+    have : kv.1 ∈ c.params := by rw [← hk]; exact List.mem_map_of_mem (f := (·.1)) hkv
+    simp [this]
+  simp only [hex]
   simp [hvp, hvk, hb, bind, Except.bind, pure, Except.pure]
-  intro a b hab
-  rw [← hk]
-  exact List.mem_map_of_mem (f := (·.1)) hab
 
 /-- re-building a one-parameter constructor from the value, passed positionally -/
 theorem rebuild_single (lit : PyVal → α) (cls : CClass) (c : Ctor) (hs : Shape c) (hvp : c.varPos = none)
@@ -238,10 +250,14 @@ theorem rebuild_varpos (lit : PyVal → α) (cls : CClass) (c : Ctor) (hs : Shap
   simp [hp, hvp, hvk, this, bindCtorParams, bind, Except.bind, pure, Except.pure]
 
 theorem rebuild_varkw (lit : PyVal → α) (cls : CClass) (c : Ctor) (hs : Shape c) (hvp : c.varPos = none)
-    (hvk : c.varKw.isSome = true) (hp : c.params = []) (kw : List (String × α)) :
+    (hvk : c.varKw.isSome = true) (hp : c.params = []) (kw : List (String × α))
+    (hres : kw.any (fun kv => reservedKwNames.contains kv.1) = false) :
     buildLeaf lit cls c [] kw = .ok { cls := cls, fn := c.target, args := [], kwargs := kw } := by
   rw [buildLeaf_eq lit cls c hs]
   have : c.varKw.isNone = false := by cases h : c.varKw <;> simp_all
-  simp [hp, hvp, hvk, this, bindCtorParams, bind, Except.bind, pure, Except.pure]
+  have hft : ∀ (l : List (String × α)), List.filter (fun _ => true) l = l := by
+    intro l; induction l <;> simp_all
+  simp only [hp, List.contains_nil, Bool.not_false, hft, hres]
+  simp [hvp, hvk, this, bindCtorParams, bind, Except.bind, pure, Except.pure]
 
 end ValidaProofs.C11R
